@@ -51,7 +51,12 @@ func revertToManifest(kv *DB, mf *Manifest, idMap map[uint64]struct{}) error {
 		}
 	}
 
-	// 2. Delete files that shouldn't exist.
+	// 2. Delete files that shouldn't exist. A read-only open must not modify the directory:
+	// unreferenced table files (left behind by a crash between creating a table and recording
+	// it in the MANIFEST) are simply ignored and removed by the next read-write open.
+	if kv.opt.ReadOnly {
+		return nil
+	}
 	for id := range idMap {
 		if _, ok := mf.Tables[id]; !ok {
 			kv.opt.Debugf("Table file %d not referenced in MANIFEST\n", id)
